@@ -228,7 +228,7 @@ def run_units(pid, kspecs, repo, workdir, tier):
                                 trusted[f"kani:{unit['unit']}:{fn}:{k}"] = t.count(k)
     for unit in kspecs:
         hs = [h for h in unit['harnesses'] if tier == 'thorough' or h.get('tier', 'quick') == 'quick']
-        hs = [h for h in hs if pid in h.get('props', [pid]) or any(t.startswith(pid + '.') for t in h['tags'])]
+        hs = [h for h in hs if any(t.startswith(pid + '.') for t in h['tags'])]
         if os.environ.get('VERIF_ONLY'):
             hs = [h for h in hs if os.environ['VERIF_ONLY'] in h['name']]
         if not hs:
@@ -273,7 +273,16 @@ def run_units(pid, kspecs, repo, workdir, tier):
 def playback(unit, h, scratch, workdir):
     """Re-run the failing harness with concrete playback, insert the generated test into the scratch source and run it natively."""
     if h.get('no_playback'):
-        return dict(attempted=False, reproduced=False, text='playback not applicable for this harness (stubbed functions have no native counterpart): ' + str(h.get('no_playback')))
+        # the harness uses stubs that have no native counterpart: the counterexample cannot be executed natively, but
+        # Kani's concrete values are still attached to the replay file
+        cmd = kani_cmd(unit, [h['name']], ['-Z', 'concrete-playback', '--concrete-playback=print', '--harness-timeout', f"{h.get('timeout', 300)}s"])
+        i = cmd.index('--output-format')
+        cmd[i + 1] = 'regular'
+        rc, out, wall = sh(cmd, cwd=scratch, timeout=h.get('timeout', 300) + 900)
+        m = re.search(r'Concrete playback unit test for.*?```(.*?)```', out, re.S)
+        vals = m.group(1).strip()[:6000] if m else '(no concrete values printed)'
+        return dict(attempted=False, reproduced=False,
+                    text='native playback not applicable (' + str(h.get('no_playback')) + ').\nKani counterexample (values of the kani::any() calls in harness order):\n' + vals)
     cmd = kani_cmd(unit, [h['name']], ['-Z', 'concrete-playback', '--concrete-playback=inplace', '--harness-timeout', f"{h.get('timeout', 300)}s"])
     cmd = [c for c in cmd if c != 'terse']
     i = cmd.index('--output-format')
